@@ -4,6 +4,10 @@ C07 — bookkeeping behind a saved package (src/numbers_parser/containers.py, mo
 * `ObjectStore.__init__` rounding of `_max_id`, `new_message_id`, `create_object_from_dict`
   (which archive file a new object goes to, when a file is created), `add_component_metadata` /
   `add_component_reference` (the `PackageMetadata.components` inventory).
+* the object graph: every message abstracted to the identifiers it refers to (`GStore`), `create_object_from_dict` with the
+  references of the dict, `add_component_reference`, reference writes / removals, `update_object_file_store` =
+  `iwafile.copy_object_to_iwa_file` over all objects (header `object_references` recomputed), `store_image`; operation
+  histories `GOp` / `runG` and the side condition `TargetsExist`.
 * the tile loop of `recalculate_table_data` (after fixes/C07-no-empty-trailing-tile.patch) and the
   row-info builder `recalculate_row_info`.
 -/
